@@ -95,17 +95,21 @@ TypeStep(chars, c) == [op |-> "type", text |-> chars, sel |-> 0, ctx |-> c, ctrl
 PriorSteps == [i \in 1..(2 * Len(prior)) |->
                  IF i % 2 = 1 THEN TypeStep(prior[(i + 1) \div 2], 1)
                  ELSE [op |-> "finish", text |-> <<>>, sel |-> 0, ctx |-> 1, ctrl |-> FALSE]]
+\* the other context of the process goes FIRST: it types the same characters just before the main context does
+\* (whoever computes something for a spelling first must not decide what the other one sees); the harness gives it
+\* the same configuration (id 2), no database directory (id 3) or other options (id 4)
+Other == 2 + ((Len(target) + Len(path) + Len(prior)) % 3)
 EditSteps == [i \in 1..(2 * Len(path)) |->
-                 IF i % 2 = 1
-                 THEN (IF path[(i + 1) \div 2] = "<bs>" THEN [op |-> "bs", text |-> <<>>, sel |-> 0, ctx |-> 1, ctrl |-> FALSE]
-                       ELSE TypeStep(<<path[(i + 1) \div 2]>>, 1))
-                 ELSE TypeStep(<<"k">>, 2)]                         \* the other context is used in between
-RunA(c) == <<[op |-> "new", cfg |-> c]>> \o PriorSteps \o <<TypeStep(SubSeq(target, 1, start), 1)>> \o EditSteps
+                 IF i % 2 = 0
+                 THEN (IF path[i \div 2] = "<bs>" THEN [op |-> "bs", text |-> <<>>, sel |-> 0, ctx |-> 1, ctrl |-> FALSE]
+                       ELSE TypeStep(<<path[i \div 2]>>, 1))
+                 ELSE (IF path[(i + 1) \div 2] = "<bs>" THEN TypeStep(<<"k">>, Other) ELSE TypeStep(<<path[(i + 1) \div 2]>>, Other))]
+RunA(c) == <<[op |-> "new", cfg |-> c]>> \o PriorSteps \o <<TypeStep(SubSeq(target, 1, start), Other), TypeStep(SubSeq(target, 1, start), 1)>> \o EditSteps
 RunB(c) == <<[op |-> "new", cfg |-> c], TypeStep(Cur, 1)>>
 Scenario(c) ==
     [mc |-> "Script", site |-> "pure", variants |-> 1, reuse |-> FALSE, warm |-> "A", fresh_cache |-> "B",
      runs |-> [A |-> RunA(c), B |-> RunB(c)],
-     checks |-> <<[k |-> "eq", a |-> <<"A", Len(RunA(c)) - 2>>, b |-> <<"B", 1>>, f |-> "render"]>>]
+     checks |-> <<[k |-> "eq", a |-> <<"A", Len(RunA(c)) - 1>>, b |-> <<"B", 1>>, f |-> "render"]>>]
 
 \* emitted when the surviving text is a non-empty prefix of the target and the path did some editing or the
 \* context is warm (plain typing into a fresh context is the reference itself)
